@@ -106,6 +106,8 @@ def match_pat(p, v, env):
         if v[0] == "st":
             if k != "pstruct":
                 return False
+            if v[1] != want:
+                return False          # a struct-like variant literal of another variant
             res = True
             for f in p["fields"]:
                 sv = v[2].get(f["name"], sym("?." + f["name"]))
@@ -191,6 +193,7 @@ class Evaluator:
         self.max_inline = max_inline
         self.depth = 0
         self.effects = []      # (kind, text) side effects seen on the evaluated path
+        self.callvals = []     # (call node, [abstract argument values]) of the calls left uninterpreted on the evaluated path
 
     def effect(self, kind, text):
         self.effects.append((kind, text))
@@ -452,6 +455,7 @@ class Evaluator:
         if name == "unwrap_or" and args and args[0][0] == "v":
             return args[0][2][0] if args[0][1] == "Some" else args[1]
         self.effects.append(("callnode", n))
+        self.callvals.append((n, args))
         return sym("%s(%s)" % (name, ", ".join(show(a) for a in args)))
 
     def run_fn(self, body, arg_values):
